@@ -32,6 +32,14 @@ EXC_KINDS = ("fail", "error", "skip", "xfail", "uxsuccess", "multi", "kbi", "sys
 BASE_KINDS = ("kbi", "sysexit", "abort")
 
 
+class SubInterrupt(KeyboardInterrupt):
+    """Subclasses of the built-in signal exceptions behave as those do."""
+
+
+class SubExit(SystemExit):
+    pass
+
+
 class Abort(BaseException):
     """A project-defined exception that does not derive from Exception."""
 
@@ -493,10 +501,11 @@ def _make_exc(kind, marker, extra=None):
         return SubSkip(marker)
     if kind == "suberror":
         return SubError(marker)
+    odd = sum(map(ord, marker)) % 2
     if kind == "kbi":
-        return KeyboardInterrupt(marker)
+        return (SubInterrupt if odd else KeyboardInterrupt)(marker)
     if kind == "sysexit":
-        return SystemExit(marker)
+        return (SubExit if odd else SystemExit)(marker)
     if kind == "abort":
         return Abort(marker)
     if kind == "user":
